@@ -20,7 +20,7 @@ func init() {
 	register(&Property{
 		ID:    "C05",
 		Level: "other",
-		Explain: "Path geometry is floating point and not decided. Structural clauses decided: (R05.1) in the path-data emitter every path that writes bytes of a command into the destination also updates the `last emitted command` state used to elide the next command letter; " +
+		Explain: "Path geometry is floating point and not decided. Structural clauses decided: (R05.5) the smooth-curve reflection state is cleared by every command of another family and by closepath; (R05.1) in the path-data emitter every path that writes bytes of a command into the destination also updates the `last emitted command` state used to elide the next command letter; " +
 			"(R05.2) every way an attribute can be dropped in the SVG minifier is one of: already removed, a documented default value on the element that defines that default (the (attribute, value) pairs are evaluated and compared with the SVG defaults), or a namespace test that exempts the functional prefixes xlink and xml; " +
 			"(R05.3) elements are dropped only under the enumerated guards (metadata, foreign-namespace element, empty defs). Not covered: numeric value preservation of lengths, colours, paths.",
 		Run: runC05,
@@ -40,6 +40,12 @@ func init() {
 	mutant(&Mutant{Name: "c05-text-entities-not-reescaped", Property: "C05", File: "svg/svg.go",
 		Old: "t.Data = parse.ReplaceMultipleWhitespaceAndEntities(t.Data, minifyXML.EntitiesMap, minifyXML.TextRevEntitiesMap)", New: "t.Data = parse.ReplaceMultipleWhitespaceAndEntities(t.Data, minifyXML.EntitiesMap, nil)",
 		Rule: "R05.4", Construct: "ReplaceMultipleWhitespaceAndEntities(t.Data)"})
+	mutant(&Mutant{Name: "c05-quadratic-keeps-cubic-state", Property: "C05", File: "svg/pathdata.go",
+		Old: "\t\t} else {\n\t\t\tp.cx, p.cy = math.NaN(), math.NaN()\n\t\t}\n\n\t\t// switch from Q to T whenever possible\n\t\tif cmd == 'Q'", New: "\t\t} else if cmd != 'Q' && cmd != 'q' {\n\t\t\tp.cx, p.cy = math.NaN(), math.NaN()\n\t\t}\n\n\t\t// switch from Q to T whenever possible\n\t\tif cmd == 'Q'",
+		Rule: "R05.5", Construct: "p.cx cleared"})
+	mutant(&Mutant{Name: "c05-closepath-keeps-control-point", Property: "C05", File: "svg/pathdata.go",
+		Old: "\t\t\tp.qx, p.qy = math.NaN(), math.NaN()\n\t\t\tb[0] = 'z'\n", New: "\t\t\tb[0] = 'z'\n",
+		Rule: "R05.5", Construct: "closepath clears p.qx"})
 	mutant(&Mutant{Name: "c05-drop-title", Property: "C05", File: "svg/svg.go",
 		Old: "\t\t\tif tag == Metadata {\n\t\t\t\tt.Data = nil\n", New: "\t\t\tif tag == Metadata {\n\t\t\t\tt.Data = nil\n\t\t\t} else if tag == Style {\n\t\t\t\tt.Data = nil\n",
 		Rule: "R05.3", Construct: "element dropped"})
@@ -53,6 +59,106 @@ func runC05(c *Ctx) {
 	c.r051(pk)
 	c.r052(pk)
 	c.entityReescape("R05.4", "svg", 2)
+	c.r055(pk)
+}
+
+// R05.5: smooth-curve reflection state is cleared by every command of another family.
+func (c *Ctx) r055(pk *packages.Package) {
+	const rule = "R05.5"
+	c.R.Rule(rule, "S/s (T/t) take the reflection of the previous control point only when the previous command is C/c/S/s (Q/q/T/t); after any other command the control point is the current point (SVG 1.1 §8.3.6/8.3.7). In svg.(*PathData).copyInstruction the remembered control point (cx,cy) [(qx,qy)] drives the C→S [Q→T] rewrite, so: (a) under the stipulation that cmd is none of C c S s [Q q T t], every path through one iteration of the coordinate loop passes an assignment of math.NaN() to p.cx and p.cy [p.qx and p.qy]; (b) the closepath branch (return without coordinates) passes such an assignment for all four fields. A stale control point turns a C/Q after a command of another family into S/T, which a renderer then draws with the current point as control point")
+	fd := c.fn(rule, pk, "PathData.copyInstruction")
+	if fd == nil {
+		return
+	}
+	g := c.graph(pk, fd)
+	recv := fd.Recv.List[0].Names[0].Name
+	resets := func(field string) func(*flow.Node) bool {
+		return func(y *flow.Node) bool {
+			as, ok := y.Stmt.(*ast.AssignStmt)
+			if !ok || y.Kind != flow.KStmt {
+				return false
+			}
+			for i, l := range as.Lhs {
+				if str(l) != recv+"."+field {
+					continue
+				}
+				if len(as.Rhs) == len(as.Lhs) {
+					if call, isCall := ast.Unparen(as.Rhs[i]).(*ast.CallExpr); isCall && calleeName(pk.TypesInfo, call) == "math.NaN" {
+						return true
+					}
+				}
+				// whole-struct reset of the receiver is not used; anything else is not a reset
+			}
+			return false
+		}
+	}
+	// the coordinate loop: the for statement whose body assigns `cmd = origCmd`
+	var loop *ast.ForStmt
+	ast.Inspect(fd.Body, func(x ast.Node) bool {
+		if f, ok := x.(*ast.ForStmt); ok && loop == nil && f.Post != nil && len(f.Body.List) > 0 {
+			loop = f
+		}
+		return true
+	})
+	if loop == nil {
+		c.R.Unres(rule, "svg.PathData.copyInstruction/coordinate loop", c.pos(fd), "for loop not found")
+		return
+	}
+	first := firstNodeIn(g, loop.Body.List[0])
+	post := g.NodeOf(loop.Post)
+	if first == nil || post == nil {
+		c.R.Unres(rule, "svg.PathData.copyInstruction/coordinate loop", c.pos(loop), "loop nodes not found in the graph")
+		return
+	}
+	families := []struct {
+		name    string
+		letters []string
+		fields  []string
+	}{
+		{"cubic", []string{"C", "c", "S", "s"}, []string{"cx", "cy"}},
+		{"quadratic", []string{"Q", "q", "T", "t"}, []string{"qx", "qy"}},
+	}
+	n := 0
+	for _, fam := range families {
+		assume := map[string]bool{}
+		tests := 0
+		for _, l := range fam.letters {
+			assume["cmd == '"+l+"'"] = false
+		}
+		for _, y := range g.Nodes {
+			if y.Kind == flow.KCond {
+				if _, ok := assume[str(y.Expr)]; ok {
+					tests++
+				}
+			}
+		}
+		if tests < 4 {
+			c.R.Unres(rule, "svg.PathData.copyInstruction/"+fam.name+" family tests", c.pos(loop), "the tests cmd == '"+strings.Join(fam.letters, "'/'")+"' were not all found: the stipulation cannot be expressed")
+			continue
+		}
+		for _, f := range fam.fields {
+			n++
+			p := g.Path(flow.Search{From: []*flow.Node{first}, IncludeFrom: true, Goal: func(y *flow.Node) bool { return y == post || y.Kind == flow.KExit }, Avoid: resets(f), AssumeRaw: assume})
+			c.R.Check(p == nil, rule, "svg.PathData.copyInstruction/"+recv+"."+f+" cleared by commands outside the "+fam.name+" family", c.pos(loop), "reset to NaN on every path", "a command that is not "+strings.Join(fam.letters, "/")+" can leave "+recv+"."+f+" set: the next curve of the "+fam.name+" family may be rewritten to its smooth form against a stale control point: "+pathStr(c, g, p))
+		}
+	}
+	// (b) closepath: the return inside the n == 0 branch
+	var zret *flow.Node
+	for _, y := range g.Nodes {
+		if r, ok := y.Stmt.(*ast.ReturnStmt); ok && y.Kind == flow.KStmt && len(r.Results) == 1 && str(r.Results[0]) == "1" {
+			zret = y
+		}
+	}
+	if zret == nil {
+		c.R.Unres(rule, "svg.PathData.copyInstruction/closepath branch", c.pos(fd), "`return 1` of the closepath branch not found")
+		return
+	}
+	for _, f := range []string{"cx", "cy", "qx", "qy"} {
+		n++
+		p := g.MustPassBefore(zret, resets(f), flow.Search{})
+		c.R.Check(p == nil, rule, "svg.PathData.copyInstruction/closepath clears "+recv+"."+f, c.pos(zret.Stmt), "reset to NaN", "closepath leaves "+recv+"."+f+" set: `M0 0Q5 10 10 0zQ-5-10 8 8` becomes `…zT8 8`, which a renderer draws with the current point as control point")
+	}
+	c.R.Floor(rule, "reflection-state obligations", n, 8)
 }
 
 func (c *Ctx) r051(pk *packages.Package) {
@@ -587,4 +693,22 @@ func keysI(m map[int64]bool) []int64 {
 	}
 	sort.Slice(out, func(i, j int) bool { return out[i] < out[j] })
 	return out
+}
+
+// firstNodeIn returns the node that executes first inside statement st: the graph node with the
+// smallest source position inside it (init statement, else the leftmost condition leaf).
+func firstNodeIn(g *flow.Graph, st ast.Node) *flow.Node {
+	var best *flow.Node
+	for _, n := range g.Nodes {
+		a := n.Ast()
+		if a == nil || n.Kind == flow.KTrue || n.Kind == flow.KFalse {
+			continue
+		}
+		if st.Pos() <= a.Pos() && a.End() <= st.End() {
+			if best == nil || a.Pos() < best.Ast().Pos() {
+				best = n
+			}
+		}
+	}
+	return best
 }
